@@ -64,14 +64,14 @@ def lis_checksum(by: bytes) -> int:
     return c
 
 
-def build(model, tif=None, rec_start=0):
+def build(model, tif=None, rec_start=None):
     """Returns (bytes, layout).  layout = {'records': [{'pos', 'payload', 'end', 'prs': [{'pos' (of TIF marker or PRH),
     'prh', 'len', 'data_pos', 'data_len', 'chk_pos'}]}], 'mask': [(pos, n)] bytes whose value is not compared}"""
     tif = model['tif'] if tif is None else tif
     assert model['prlen'] <= 65535 and max_payload(model) >= 1
     out = bytearray()
     layout = {'records': [], 'mask': [], 'recnum_pos': [], 'fields': []}
-    recnum = rec_start
+    recnum = model.get('rec_start', 0) if rec_start is None else rec_start
     prev_marker = 0
     markers = []
 
@@ -218,6 +218,9 @@ def gen_model(rng, max_records=12):
                        (1, rng.pick([1024, 4096, 8192, 65535])), (1, rng.randrange(lo, 65536))])
     tif = rng.wpick([(4, 'none'), (4, 'normal'), (2, 'reversed')])
     model = {'prlen': prlen, 'rec': rec, 'file': filen, 'chk': chk, 'tif': tif, 'records': []}
+    if rec and rng.chance(0.3):
+        # record numbers of a file that continues a numbering (they are 16 bit and wrap)
+        model['rec_start'] = rng.pick([65530, 65534, 65535, 32767, 1, 65500])
     mp = max_payload(model)
     nrec = rng.wpick([(2, rng.randrange(1, 3)), (5, rng.randrange(2, 7)), (2, rng.randrange(4, max_records + 1))])
     budget = 60000
@@ -248,6 +251,11 @@ def gen_model(rng, max_records=12):
         budget -= n + (n // mp + 1) * (PRH + tl + (12 if tif != 'none' else 0))
         if budget < 100:
             break
+    if rng.chance(0.04):
+        # boundary: a first physical record of (almost) the largest legal size, where the TIF 'next' word exceeds 16 bits
+        model['prlen'] = rng.pick([65535, 65535, 65534, 65530, 65524, 65523, 65520])
+        first = {'key': rng.getrandbits(32), 'len': max_payload(model) + rng.pick([0, 0, 1, 5, -1, -3])}
+        model['records'] = [first] + [{'key': r['key'], 'len': min(r['len'], 300)} for r in model['records'][:3]]
     fix_reversed(model)
     return model
 
